@@ -122,36 +122,44 @@ def resolve(files):
     return binds
 
 
-def render(files, form, reg, include=False):
-    """returns (list of (name, text), tree, expected image or None when an error is expected)"""
+def render(files, form, reg, include=False, inc_pos=None):
+    """returns (list of (name, text), tree, expected image or None when an error is expected).  With include, file 1 is included
+    by file 0 after inc_pos of file 0's events (default: after all of them); its bytes stand where the directive stands"""
     res = resolve(files)
     base = BASE[reg]
     use_size = 4 if form == "eager" else 2
-    # layout: in link order; with include, file 1 is included at the end of file 0's events
-    order = list(range(len(files)))
-    addr = base
+    st = {"addr": base}
     label_addr = {}
     use_slots = []
-    texts = []
-    for fi in order:
+    texts = [None] * len(files)
+    if inc_pos is None:
+        inc_pos = len(files[0])
+
+    def emit_file(fi):
         lines = []
+        texts[fi] = lines
         if fi == 0 and reg == "first":
             lines.append(".link %o" % base)
         # a private bystander with the same name in every file (distinct names when some file says '.extern all',
         # which would legitimately export it from each of them)
         yname = "y" if not any("A" in f for f in files) else "y%d" % fi
         lines.append("%s = %o" % (yname, 0o100 + fi))
-        for i, e in enumerate(files[fi]):
+        for i, e in enumerate(list(files[fi]) + [None]):
+            if include and fi == 0 and i == inc_pos and inc_pos < len(files[0]):
+                lines.append(".include \"f1.mac\"")
+                emit_file(1)
+            if e is None:
+                break
             if e == "D":
                 lines.append("x = %o" % (0o11 * (fi + 1)))
             elif e == "E":
                 lines.append("x == %o" % (0o11 * (fi + 1)))
             elif e == "L":
                 lines.append("x:")
-                label_addr[(fi, i)] = addr
+                label_addr[(fi, i)] = st["addr"]
             elif e == "G":
                 lines.append("x::")
-                label_addr[(fi, i)] = addr
+                label_addr[(fi, i)] = st["addr"]
             elif e == "X":
                 lines.append(".extern x")
             elif e == "A":
@@ -159,19 +167,26 @@ def render(files, form, reg, include=False):
             elif e == "R":
                 lines.append(".repeat 2 { nop }")
                 use_slots.append(("raw", b"\xa0\x00\xa0\x00"))
-                addr += 4
+                st["addr"] += 4
             elif e == "U":
                 lines.append("mov #x, r0" if form == "eager" else ".word x")
-                use_slots.append((fi, addr))
-                addr += use_size
+                use_slots.append((fi, st["addr"]))
+                st["addr"] += use_size
         lines.append(".word " + yname)
-        use_slots.append(("y", fi, addr))
-        addr += 2
-        if include and fi == 0:
+        use_slots.append(("y", fi, st["addr"]))
+        st["addr"] += 2
+        if include and fi == 0 and inc_pos >= len(files[0]):
             lines.append(".include \"f1.mac\"")
+            emit_file(1)
         if fi == len(files) - 1 and reg == "last" and not include:
             lines.append(".link %o" % base)
-        texts.append(lines)
+
+    order = list(range(len(files)))
+    if include:
+        emit_file(0)
+    else:
+        for fi in order:
+            emit_file(fi)
     if include and reg == "last":
         texts[0].append(".link %o" % base)
     if include:
@@ -203,19 +218,24 @@ def render(files, form, reg, include=False):
     return named, tree, image, None
 
 
-def run_config(files, r, include=False):
+def run_config(files, r, include=False, inc_pos=None):
     if not any("U" in f for f in files) or not any(e in "DLEG" for f in files for e in f):
         return
     if not all(admissible(f) for f in files):
         return
+    if include and inc_pos is None:
+        # the directive after all events of the including file (the usual place) and at every earlier position
+        for pos in range(len(files[0]), -1, -1):
+            run_config(files, r, True, pos)
+        return
     for form in ("eager", "lazy"):
         for reg in REG:
-            named, tree, image, why = render(files, form, reg, include)
+            named, tree, image, why = render(files, form, reg, include, inc_pos)
             out = driver.assemble(named, tree=tree)
             r.states += 1
             r.trans += sum(len(f) for f in files)
-            key = (tuple(tuple(f) for f in files), form, reg, include)
-            case = {"k": "config", "files": [list(f) for f in files], "form": form, "reg": reg, "include": include}
+            key = (tuple(tuple(f) for f in files), form, reg, include, inc_pos)
+            case = {"k": "config", "files": [list(f) for f in files], "form": form, "reg": reg, "include": include, "inc_pos": inc_pos}
             fam = mech(files, form)
             if image is None:
                 r.ran(out.cls(), key=key)
@@ -255,7 +275,7 @@ def mech(files, form):
 def check(case, r, tier):
     k = case["k"]
     if k == "config":
-        run_config([tuple(f) for f in case["files"]], r, case.get("include", False))
+        run_config([tuple(f) for f in case["files"]], r, case.get("include", False), case.get("inc_pos"))
         return
     if k == "local-prog":
         run_local(case["events"], case["use"], case.get("inc"), r)
